@@ -88,6 +88,20 @@ r6 = { a{2} ~ b{1,} ~ (a ~ b){,2} }
 r7 = { (a? ~ b){1,2} ~ a{0,1} }
 r8 = { "(" ~ (r3 ~ "c")? ~ r8? ~ ")" }
 ''')
+    # slot order: the same rule in 2 and 3 alternatives of one choice, in two sequence positions, mixed; the k-th
+    # slot of the result must belong to the k-th mention (both derivations: optimized and pest_optimizer = false)
+    add("h_slots", r'''
+x = { "1" | "2" }
+y = { "y" }
+s0 = { "a" ~ x | "b" ~ x }
+s1 = { "a" ~ x | "b" ~ x | y ~ x ~ x }
+s2 = { x ~ "a" ~ x }
+s3 = { x ~ (x | y ~ x)* }
+s4 = { (x ~ x)? ~ x }
+s5 = { (x | y ~ x)+ ~ (y | x)? }
+s6 = { x | y | x ~ x }
+s7 = _{ ("a" ~ x | x ~ "b" | "b" ~ x){1,2} }
+''')
     # built-ins are getters too (they are not rule structs: only tied, no oracle), EOI is a rule
     add("h_builtin", r'''
 a = { "a" }
@@ -245,7 +259,15 @@ pub trait Flat<'i, R> { fn flat(&self, out: &mut Vec<String>); }
 impl<'s, 'i, R: RuleType, X: Pairs<'i, R>> Flat<'i, R> for &'s X { fn flat(&self, out: &mut Vec<String>) { out.push(show_tokens::<R, X>(*self)); } }
 impl<'i, R, A: Flat<'i, R>> Flat<'i, R> for Option<A> { fn flat(&self, out: &mut Vec<String>) { if let Some(a) = self { a.flat(out); } } }
 impl<'i, R, A: Flat<'i, R>> Flat<'i, R> for Vec<A> { fn flat(&self, out: &mut Vec<String>) { for a in self { a.flat(out); } } }
-macro_rules! flat_tuple { ($($n:ident $i:tt),+) => { impl<'i, R, $($n: Flat<'i, R>),+> Flat<'i, R> for ($($n,)+) { fn flat(&self, out: &mut Vec<String>) { $( self.$i.flat(out); )+ } } } }
+/// The same result unflattened, in a canonical rendering: `N` / `S(..)` for Option, `V{..;..}` for Vec, `T{..;..}` for tuples.
+pub trait Show<'i, R> { fn show(&self, out: &mut String); }
+impl<'s, 'i, R: RuleType, X: Pairs<'i, R>> Show<'i, R> for &'s X { fn show(&self, out: &mut String) { out.push_str(&show_tokens::<R, X>(*self)); } }
+impl<'i, R, A: Show<'i, R>> Show<'i, R> for Option<A> { fn show(&self, out: &mut String) { match self { None => out.push('N'), Some(a) => { out.push_str("S("); a.show(out); out.push(')'); } } } }
+impl<'i, R, A: Show<'i, R>> Show<'i, R> for Vec<A> { fn show(&self, out: &mut String) { out.push_str("V{"); for (k, a) in self.iter().enumerate() { if k > 0 { out.push(';'); } a.show(out); } out.push('}'); } }
+macro_rules! flat_tuple { ($($n:ident $i:tt),+) => {
+    impl<'i, R, $($n: Flat<'i, R>),+> Flat<'i, R> for ($($n,)+) { fn flat(&self, out: &mut Vec<String>) { $( self.$i.flat(out); )+ } }
+    impl<'i, R, $($n: Show<'i, R>),+> Show<'i, R> for ($($n,)+) { fn show(&self, out: &mut String) { out.push_str("T{"); $( if $i > 0 { out.push(';'); } self.$i.show(out); )+ out.push('}'); } }
+} }
 flat_tuple!(A 0, B 1); flat_tuple!(A 0, B 1, C 2); flat_tuple!(A 0, B 1, C 2, D 3); flat_tuple!(A 0, B 1, C 2, D 3, E 4);
 flat_tuple!(A 0, B 1, C 2, D 3, E 4, F 5); flat_tuple!(A 0, B 1, C 2, D 3, E 4, F 5, G 6); flat_tuple!(A 0, B 1, C 2, D 3, E 4, F 5, G 6, H 7);
 flat_tuple!(A 0, B 1, C 2, D 3, E 4, F 5, G 6, H 7, I 8); flat_tuple!(A 0, B 1, C 2, D 3, E 4, F 5, G 6, H 7, I 8, J 9);
@@ -269,10 +291,12 @@ FN_HEAD = '''fn f_@V@_@GID@_@RULE@(input: &str) -> String {
         Err(_) => "v=fail".to_string(),
         Ok((next, node)) => {
             let mut parts: Vec<String> = vec![];
+            let mut shown: Vec<String> = vec![];
 '''
-FN_GET = '''            { let mut got = vec![]; Flat::<@V@_@GID@::Rule>::flat(&node.r#@X@(), &mut got); parts.push(format!("@X@:{}", got.join(","))); }
+FN_GET = '''            { let res = node.r#@X@(); let mut got = vec![]; Flat::<@V@_@GID@::Rule>::flat(&res, &mut got); parts.push(format!("@X@:{}", got.join(",")));
+              let mut st = String::new(); Show::<@V@_@GID@::Rule>::show(&res, &mut st); shown.push(format!("@X@:{}", st)); }
 '''
-FN_TAIL = '''            format!("v=ok\\tend={}\\ttok={}\\tget={}", next.byte_offset(), show_tokens::<@V@_@GID@::Rule, _>(&node), parts.join("|"))
+FN_TAIL = '''            format!("v=ok\\tend={}\\ttok={}\\tget={}\\tst={}", next.byte_offset(), show_tokens::<@V@_@GID@::Rule, _>(&node), parts.join("|"), shown.join("|"))
         }
     }
 }
